@@ -58,3 +58,58 @@ theorem SymDB.run_build (vs : S → List V) (score : S → S → Option D) (xs :
   | cons qs rest ih => simp only [SymDB.run, SymDB.lookup_build, ih, List.map_cons]
 
 end Prs
+
+namespace Prs
+section lookdb
+variable {S D : Type} [DecidableEq S] [DecidableEq D]
+
+theorem find_keyed' {K : Type} [DecidableEq K] (L : List K) (g : K → List Nat) (c : K) :
+    (L.map fun key => (key, g key)).find? (fun kv => kv.1 == c) =
+      if c ∈ L then some (c, g c) else none := by
+  induction L with
+  | nil => simp
+  | cons a L ih =>
+    simp only [List.map_cons, List.find?_cons, List.mem_cons]
+    by_cases h : a = c
+    · subst h; simp
+    · have h' : ¬ c = a := fun e => h e.symm
+      have hb : (a == c) = false := by simpa using h
+      simp [hb, h', ih]
+
+theorem LookDB.get_build (xs : List S) (s : S) : (LookDB.build xs).get s = positionsOf xs s := by
+  simp only [LookDB.get, LookDB.build, find_keyed']
+  split
+  · rename_i kv h
+    split at h
+    · simp only [Option.some.injEq] at h; subst h; rfl
+    · cases h
+  · rename_i h
+    split at h
+    · cases h
+    · rename_i hc
+      symm
+      unfold positionsOf
+      apply positionsWhere_eq_nil
+      intro t ht
+      simp only [mem_dedup] at hc
+      simp only [beq_eq_false_iff_ne, ne_eq]
+      rintro rfl
+      exact hc ht
+
+theorem LookDB.lookup_build (nb : S → List S) (cd : S → S → D) (keep : D → Bool) (pdist : Bool)
+    (xs qs : List S) (k : Nat) :
+    LookDB.lookup nb cd keep pdist (LookDB.build xs) qs k =
+      (LookDB.build xs, lookupDB nb cd keep pdist xs qs k) := by
+  simp only [LookDB.lookup, lookupDB, LookDB.get_build]
+
+/-- any history of lookups against one LookupDB object: every answer is the one-shot answer and the
+stored dictionary never changes -/
+theorem LookDB.run_build (nb : S → List S) (cd : S → S → D) (keep : D → Bool) (pdist : Bool)
+    (k : Nat) (xs : List S) (qss : List (List S)) :
+    LookDB.run nb cd keep pdist k (LookDB.build xs) qss =
+      (LookDB.build xs, qss.map fun qs => lookupDB nb cd keep pdist xs qs k) := by
+  induction qss with
+  | nil => rfl
+  | cons qs rest ih => simp only [LookDB.run, LookDB.lookup_build, ih, List.map_cons]
+end lookdb
+end Prs
